@@ -161,6 +161,7 @@ class Interp(object):
         self.drop = set(DROP_CALLS) | set(drop)
         self.called = set()
         self.trace = []
+        self.asm_obj = None
 
     # ------------------------------------------------------------------ calls
     def call(self, fn, args=(), kwargs=None):
@@ -330,6 +331,9 @@ class Interp(object):
     def get_global(self, module, name):
         return self.load_global(name, vars(module))
 
+    def get_global(self, module, name):
+        return self.load_global(name, vars(module))
+
     # ------------------------------------------------------------------ statements
     def exec_block(self, stmts, fr):
         for st in stmts:
@@ -484,7 +488,32 @@ class Interp(object):
                 self.exec_block(st.finalbody, fr)
 
     def x_With(self, st, fr):
-        raise Unsupported("with statement at line %d of %s" % (st.lineno, fr.qual))
+        mgrs = []
+        try:
+            for item in st.items:
+                m = self.eval(item.context_expr, fr)
+                ent = getattr(m, '__enter__', None)
+                if ent is None:
+                    raise Unsupported("with statement on %r at line %d of %s" % (type(m).__name__, st.lineno, fr.qual))
+                v = ent()
+                mgrs.append(m)
+                if item.optional_vars is not None:
+                    self.assign(item.optional_vars, v, fr)
+            self.exec_block(st.body, fr)
+        except (_Flow, EngineError):
+            for m in reversed(mgrs):
+                m.__exit__(None, None, None)
+            raise
+        except BaseException as e:
+            swallow = False
+            for m in reversed(mgrs):
+                if m.__exit__(type(e), e, e.__traceback__):
+                    swallow = True
+            if not swallow:
+                raise
+        else:
+            for m in reversed(mgrs):
+                m.__exit__(None, None, None)
 
     def x_Import(self, st, fr):
         for a in st.names:
